@@ -1,0 +1,7 @@
+//go:build !verif
+
+package lang
+
+func verifStep(node any) error                     { return nil }
+func verifFrame(push bool, name string, depth int) {}
+func verifRule(kind string, e *Evaluator)          {}
